@@ -161,6 +161,7 @@ fn start_hang_monitor(property: String, profile: String) {
                             signature: format!("{}.does_not_return", property.to_lowercase()),
                             shrunk: false,
                             before: Vec::new(),
+                            concurrent_with: Vec::new(),
                         };
                         std::fs::write(&file, serde_json::to_string_pretty(&rep).unwrap_or_default()).ok();
                         std::process::exit(3);
@@ -240,6 +241,11 @@ pub trait Prop: Sync + Send + 'static {
     /// then judged a second time: the answers of the crate may not depend on what was asked before
     /// (0 = never)
     const SIBLING_EVERY: u64 = 4;
+    /// contention pass after the random search: this many small groups of related cases (a case,
+    /// a sibling, and the case with one integer component moved by a multiple of a power of two)
+    /// are each judged `CONTENTION_ITERS` times by all worker threads at the same time (0 = none)
+    const CONTENTION_GROUPS: u64 = 24;
+    const CONTENTION_ITERS: u64 = 150;
     fn gen(u: &mut Unstructured<'_>) -> arbitrary::Result<Self::Case>;
     fn check(case: &Self::Case, cx: &mut Cx) -> Verdict;
 }
@@ -386,6 +392,123 @@ pub struct Replay {
     /// independence: the verdict of `case` must not depend on them); empty for ordinary cases
     #[serde(default, skip_serializing_if = "Vec::is_empty")]
     pub before: Vec<serde_json::Value>,
+    /// cases of the same sub-check that all worker threads were judging at the same time as `case`
+    /// (state shared between threads); the replay judges the whole group concurrently again
+    #[serde(default, skip_serializing_if = "Vec::is_empty")]
+    pub concurrent_with: Vec<serde_json::Value>,
+}
+
+pub type ContendFn = fn(&[serde_json::Value], usize, u64) -> Result<Option<(usize, Failure)>, String>;
+
+/// all `threads` judge every case of the group `iters` times, each thread starting at another
+/// member; the first failure (index into the group) is returned
+fn hammer<P: Prop>(group: &[P::Case], threads: usize, iters: u64) -> Option<(usize, Failure)> {
+    hammer_groups::<P>(&[(group.to_vec(), iters)], threads).map(|(_, i, f)| (i, f))
+}
+
+/// `threads` workers are started once and walk through the groups in lock-step (a barrier before
+/// every group), so that all of them are judging members of the same group at the same time.
+/// Returns (group index, member index, failure) of the first failure.
+fn hammer_groups<P: Prop>(groups: &[(Vec<P::Case>, u64)], threads: usize) -> Option<(usize, usize, Failure)> {
+    let threads = threads.max(2);
+    let stop = AtomicBool::new(false);
+    let found: Mutex<Option<(usize, usize, Failure)>> = Mutex::new(None);
+    let barrier = std::sync::Barrier::new(threads);
+    std::thread::scope(|s| {
+        for t in 0..threads {
+            let (stop, found, barrier) = (&stop, &found, &barrier);
+            s.spawn(move || {
+                for (gi, (group, iters)) in groups.iter().enumerate() {
+                    barrier.wait();
+                    if stop.load(Ordering::Relaxed) {
+                        continue;
+                    }
+                    'group: for it in 0..*iters {
+                        for k in 0..group.len() {
+                            if stop.load(Ordering::Relaxed) {
+                                break 'group;
+                            }
+                            let idx = (k + t + it as usize) % group.len();
+                            let mut cx = Cx::default();
+                            let verdict = match watched::<P, _>(&group[idx], || catch(|| P::check(&group[idx], &mut cx))) {
+                                Ok(v) => v,
+                                Err(p) => fail("harness.check_panicked", "check itself does not panic", p.short()),
+                            };
+                            if let Verdict::Fail(f) = verdict {
+                                stop.store(true, Ordering::Relaxed);
+                                let mut g = found.lock().unwrap();
+                                if g.is_none() {
+                                    *g = Some((gi, idx, f));
+                                }
+                                break 'group;
+                            }
+                        }
+                    }
+                }
+            });
+        }
+    });
+    found.into_inner().unwrap()
+}
+
+fn contend_impl<P: Prop>(group: &[serde_json::Value], threads: usize, iters: u64) -> Result<Option<(usize, Failure)>, String> {
+    let cases: Vec<P::Case> = group.iter().map(|v| serde_json::from_value(v.clone()).map_err(|e| e.to_string())).collect::<Result<_, _>>()?;
+    Ok(hammer::<P>(&cases, threads, iters))
+}
+
+/// the JSON form of a case with one integer component moved by a multiple of a power of two
+/// (keys that differ by 2^k * j share a slot of a direct-mapped table of up to 2^k entries)
+fn alias_variants(v: &serde_json::Value, salt: u64) -> Vec<serde_json::Value> {
+    fn leaves(v: &serde_json::Value, path: &mut Vec<String>, out: &mut Vec<Vec<String>>) {
+        match v {
+            serde_json::Value::Number(n) if n.as_i64().map(|x| x.abs() < (1 << 61)).unwrap_or(false) => out.push(path.clone()),
+            serde_json::Value::Array(a) => {
+                for (i, x) in a.iter().enumerate().take(4) {
+                    path.push(i.to_string());
+                    leaves(x, path, out);
+                    path.pop();
+                }
+            }
+            serde_json::Value::Object(o) => {
+                for (k, x) in o {
+                    path.push(k.clone());
+                    leaves(x, path, out);
+                    path.pop();
+                }
+            }
+            _ => {}
+        }
+    }
+    fn at<'a>(v: &'a mut serde_json::Value, path: &[String]) -> Option<&'a mut serde_json::Value> {
+        let mut cur = v;
+        for p in path {
+            cur = match cur {
+                serde_json::Value::Array(a) => a.get_mut(p.parse::<usize>().ok()?)?,
+                serde_json::Value::Object(o) => o.get_mut(p)?,
+                _ => return None,
+            };
+        }
+        Some(cur)
+    }
+    let mut paths = Vec::new();
+    leaves(v, &mut Vec::new(), &mut paths);
+    let mut out = Vec::new();
+    if paths.is_empty() {
+        return out;
+    }
+    const STEPS: [i64; 8] = [256, 1024, -1024, 4096, 65_536, -512, 3 * 1024, 1 << 20];
+    for j in 0..3u64 {
+        let path = &paths[((salt / 7 + j) % paths.len() as u64) as usize];
+        let step = STEPS[((salt / 3 + j * 5) % 8) as usize] * (1 + (salt >> 9) as i64 % 3);
+        let mut w = v.clone();
+        if let Some(leaf) = at(&mut w, path) {
+            if let Some(x) = leaf.as_i64() {
+                *leaf = serde_json::Value::from(x + step);
+                out.push(w);
+            }
+        }
+    }
+    out
 }
 
 pub type ReplayFn = fn(&serde_json::Value, &[serde_json::Value]) -> Result<(Verdict, Vec<&'static str>), String>;
@@ -419,6 +542,7 @@ pub struct Env {
     pub stats: Stats,
     pub violations: Vec<Replay>,
     pub registry: BTreeMap<&'static str, ReplayFn>,
+    pub contend_registry: BTreeMap<&'static str, ContendFn>,
     pub exhaustive_parts: Vec<String>,
     pub notes: Vec<String>,
     pub replay_dir: String,
@@ -472,6 +596,7 @@ impl Env {
             stats: Stats::default(),
             violations: Vec::new(),
             registry: BTreeMap::new(),
+            contend_registry: BTreeMap::new(),
             exhaustive_parts: Vec::new(),
             notes: Vec::new(),
             replay_dir: "/verif/evidence/replays".to_string(),
@@ -494,6 +619,7 @@ impl Env {
     }
 
     pub fn register<P: Prop>(&mut self) {
+        self.contend_registry.insert(P::NAME, contend_impl::<P>);
         self.registry.insert(P::NAME, replay_impl::<P>);
     }
 
@@ -529,6 +655,7 @@ impl Env {
         }
         self.violations.push(Replay {
             before: before.iter().map(|c| serde_json::to_value(c).unwrap_or(serde_json::Value::Null)).collect(),
+            concurrent_with: Vec::new(),
             property: self.property.clone(),
             check: P::NAME.to_string(),
             profile: self.profile.clone(),
@@ -612,6 +739,98 @@ impl Env {
                 self.push_violation_seq::<P>(&before, &case, f, true, seed);
             }
         }
+        if self.violations.is_empty() && !self.stopped() {
+            self.run_contention::<P>(P::CONTENTION_GROUPS, P::CONTENTION_ITERS);
+        }
+    }
+
+    /// State shared between threads: small groups of related cases, each of which passes when judged
+    /// alone, are judged by all worker threads at the same time. A failure here cannot come from the
+    /// inputs (they passed alone) - only from what another thread was doing.
+    pub fn run_contention<P: Prop>(&mut self, groups: u64, iters: u64) {
+        self.register::<P>();
+        if self.register_only || groups == 0 || iters == 0 {
+            return;
+        }
+        let groups = ((groups as f64) * self.scale.min(4.0)).max(1.0) as u64;
+        let mut judged = 0u64;
+        let mut formed = 0u64;
+        let mut all: Vec<(Vec<P::Case>, u64)> = Vec::new();
+        for g in 0..groups {
+            // generator input from the run's seed
+            let mut x = derive_seed(self.seed, &[&self.property, P::NAME, &self.profile, &self.tier, "contention"], g) | 1;
+            let mut bytes = vec![0u8; P::BYTES];
+            for b in bytes.iter_mut() {
+                x ^= x << 13;
+                x ^= x >> 7;
+                x ^= x << 17;
+                *b = (x >> 24) as u8;
+            }
+            let mut u = Unstructured::new(&bytes);
+            let Ok(base) = P::gen(&mut u) else { continue };
+            let consumed = (bytes.len() - u.len()).max(1);
+            let mut cand: Vec<P::Case> = vec![base.clone()];
+            let mut b2 = bytes.clone();
+            let pos = (x % consumed as u64) as usize;
+            b2[pos] = b2[pos].wrapping_add(1 + (x >> 40) as u8 % 200);
+            if let Ok(sib) = P::gen(&mut Unstructured::new(&b2)) {
+                cand.push(sib);
+            }
+            if let Ok(v) = serde_json::to_value(&base) {
+                for w in alias_variants(&v, x) {
+                    if let Ok(c) = serde_json::from_value::<P::Case>(w) {
+                        cand.push(c);
+                    }
+                }
+            }
+            // members must pass when judged alone, and be distinct
+            let mut group: Vec<P::Case> = Vec::new();
+            let mut seen: HashSet<u64> = HashSet::new();
+            let t_alone = std::time::Instant::now();
+            for c in cand {
+                if !seen.insert(fingerprint(P::NAME, &c)) {
+                    continue;
+                }
+                let mut cx = Cx::default();
+                if let Ok(Verdict::Pass) = catch(|| P::check(&c, &mut cx)) {
+                    group.push(c);
+                }
+            }
+            if group.len() < 2 {
+                continue;
+            }
+            formed += 1;
+            // repetitions bounded by cost: a group occupies the workers for about 0.1 s at most
+            // (cases of some sub-checks are whole rows or histories)
+            let per_round = t_alone.elapsed().as_secs_f64().max(1e-6);
+            let iters = ((0.1 / per_round) as u64).clamp(2, iters);
+            judged += iters * group.len() as u64 * self.threads.max(2) as u64;
+            all.push((group, iters));
+        }
+        if let Some((gi, idx, mut f)) = hammer_groups::<P>(&all, self.threads) {
+            let group = &all[gi].0;
+            if self.is_known(&f.sig).is_none() {
+                f.expected = format!("(this case passes when judged alone; it failed while {} threads were judging it together with {} related cases) {}", self.threads.max(2), group.len() - 1, f.expected);
+                if self.violations.len() < 8 {
+                    self.violations.push(Replay {
+                        property: self.property.clone(),
+                        check: P::NAME.to_string(),
+                        profile: self.profile.clone(),
+                        seed: self.seed,
+                        case: serde_json::to_value(&group[idx]).unwrap_or(serde_json::Value::Null),
+                        expected: f.expected,
+                        actual: f.actual,
+                        signature: f.sig,
+                        shrunk: false,
+                        before: Vec::new(),
+                        concurrent_with: group.iter().enumerate().filter(|(i, _)| *i != idx).map(|(_, c)| serde_json::to_value(c).unwrap_or(serde_json::Value::Null)).collect(),
+                    });
+                }
+                STOP.store(true, Ordering::Relaxed);
+            }
+        }
+        self.stats.evaluations += judged;
+        *self.stats.labels.entry("groups_of_related_cases_judged_concurrently_by_all_threads").or_default() += formed;
     }
 
     /// One generated input: the case, and for one input in `P::SIBLING_EVERY` a sibling case and
@@ -809,6 +1028,7 @@ impl Env {
             signature: f.sig,
             shrunk: false,
             before: Vec::new(),
+            concurrent_with: Vec::new(),
         });
     }
 }
